@@ -14,6 +14,7 @@ def c03(tier=None):
     samples = []
     scs = brokerlib.corpus(c.rng, ["slow-qos2", "wrong-type-ack", "inbound-outbound-id", "ids-return-after-recipient-vanished", "takeover-with-unacked-delivery", "retransmit-then-next", "fanout-unacked-retransmit", "topic-starts-with-mount-name"])
     scs += [gen_retransmit(c.rng, c.rng.choice([1, 1, 2])) for _ in range(n_of(c, 14, 200))]
+    scs += [brokerlib.gen_broken_recipient_qos(c.rng) for _ in range(n_of(c, 10, 100))]
     run_scenarios(c, "retransmission-scripts", scs, samples)
     from checks import writerlib
     writerlib.add_pool_suites(c, samples)
@@ -47,20 +48,27 @@ def c14(tier=None):
     run_scenarios(c, "cross-node-placement-and-unreachable-subsets", scs, samples)
     scs = [gen_converged(c.rng, c.rng.choice([2, 3]), 1, c.rng.choice([10, 16]), {"pub": 8, "sub": 4}) for _ in range(n_of(c, 6, 80))]
     run_scenarios(c, "cross-node-routing", scs, samples)
+    # "known to the publisher": the recipients the replicated subscription state resolves, over histories of additions and
+    # removals; and "to no other node": nothing of a session that was displaced or has ended keeps attracting messages
+    from checks import c01
+    c01.add_bypattern_suite(c, samples)
+    scs = [gen_lifecycle(c.rng, c.rng.choice([2, 3]), 1, takeover=0.5) for _ in range(n_of(c, 6, 80))]
+    run_scenarios(c, "routing-after-take-over-and-session-end", scs, samples)
     return c.finish(samples=samples, rule="case = one placement of publishers/subscribers over 2-3 nodes, publishes under every sampled subset of unreachable / failing destinations; each node's log and each client's packets observed")
 
 
 def c11(tier=None):
-    c = Check("C11", ["Wasp.Properties.Facts.Wiring", "Wasp.Properties.C11", "Wasp.Properties.C11Time", "Wasp.Properties.Reachable", "Wasp.Properties.C09", "Wasp.Properties.C08", "Wasp.Properties.Facts.C11"], tier)
+    c = Check("C11", ["Wasp.Properties.Facts.Wiring", "Wasp.Properties.AnswerLost", "Wasp.Properties.C11", "Wasp.Properties.C11Time", "Wasp.Properties.Reachable", "Wasp.Properties.C09", "Wasp.Properties.C08", "Wasp.Properties.Facts.C11"], tier)
     c.build()
     samples = []
     scs = [gen_lifecycle(c.rng, c.rng.choice([1, 2, 3]), 1, takeover=0.15) for _ in range(n_of(c, 12, 160))]
     run_scenarios(c, "session-lifecycle-converged", scs, samples)
-    scs = brokerlib.corpus(c.rng, ["removal-overtakes-creation", "takeover-out-of-order", "concatenation-collision", "suback-unwritable", "connack-unwritable", "empty-client-id-takeover"])
+    scs = brokerlib.corpus(c.rng, ["removal-overtakes-creation", "takeover-out-of-order", "concatenation-collision", "suback-unwritable", "connack-unwritable", "empty-client-id-takeover", "returning-client-will"])
     scs += [gen_lifecycle(c.rng, c.rng.choice([2, 3]), 1, takeover=0.1, fine_gossip=True) for _ in range(n_of(c, 8, 120))]
     run_scenarios(c, "session-lifecycle-gossip-schedules", scs, samples)
     scs = [brokerlib.gen_answer_lost(c.rng) for _ in range(n_of(c, 5, 80))]
     run_scenarios(c, "session-ends-when-an-answer-cannot-be-written", scs, samples)
+    brokerlib.add_refused_connect_suite(c, samples)
     brokerlib.add_nodefail_suites(c, samples)
     brokerlib.add_timing_suites(c, samples)
     return c.finish(samples=samples, rule="case = one session script (connect, subscribe sets, publish, ping, DISCONNECT / connection loss / displacement) on 1-3 nodes; gossip fully delivered after each change (oracle on packets and on every node's listing) or link by link in random order (model comparison)")
@@ -79,12 +87,12 @@ def c12(tier=None):
 
 
 def c13(tier=None):
-    c = Check("C13", ["Wasp.Properties.Facts.Wiring", "Wasp.Properties.C13", "Wasp.Properties.E2ERetainWill", "Wasp.Properties.Facts.C13"], tier)
+    c = Check("C13", ["Wasp.Properties.Facts.Wiring", "Wasp.Properties.AnswerLost", "Wasp.Properties.C13", "Wasp.Properties.E2ERetainWill", "Wasp.Properties.Facts.C13"], tier)
     c.build()
     samples = []
     scs = [gen_converged(c.rng, c.rng.choice([1, 2, 3]), 1, c.rng.choice([8, 12]), {"end": 5, "connect": 4, "sub": 4, "pub": 2}) for _ in range(n_of(c, 12, 160))]
     run_scenarios(c, "wills-by-cause-and-placement", scs, samples)
-    scs = brokerlib.corpus(c.rng, ["connack-unwritable", "suback-unwritable", "clean-end-overtakes-creation-then-node-fails", "removal-overtakes-creation"])
+    scs = brokerlib.corpus(c.rng, ["connack-unwritable", "suback-unwritable", "clean-end-overtakes-creation-then-node-fails", "removal-overtakes-creation", "returning-client-will"])
     scs += [brokerlib.gen_answer_lost(c.rng) for _ in range(n_of(c, 5, 80))]
     run_scenarios(c, "wills-corpus-and-lost-answers", scs, samples)
     brokerlib.add_nodefail_suites(c, samples)
@@ -115,6 +123,7 @@ def c02(tier=None):
     run_scenarios(c, "acked-publish-delivered", scs, samples)
     # acknowledged publishes must reach subscribers whose earlier QoS 1/2 exchanges are slow, time out and are resumed
     scs = [gen_retransmit(c.rng, 1) for _ in range(n_of(c, 8, 100))]
+    scs += [brokerlib.gen_broken_recipient_qos(c.rng) for _ in range(n_of(c, 10, 100))]
     run_scenarios(c, "acked-publish-delivered-under-timeouts", scs, samples)
     brokerlib.add_reallog_suites(c, samples)
     return c.finish(samples=samples, rule="case = one publish history (QoS mix, 1-3 publishers and subscribers); the real-log suite crosses the segment (500) and truncation (2000) boundaries and starts with the first message a node ever stores")
